@@ -293,6 +293,26 @@ def show_error_params(repo):
     return ctx_lines, after, prev[0], prev[1], more
 
 
+def column_converted(repo):
+    """Does show_error convert ast's byte offset into a character offset, i.e. assign
+    `col_offset = len(<bytes>[:col_offset].decode(...))`?"""
+    tree = _parse(repo, "node_visitor.py")
+    cls = _find(tree, ast.ClassDef, "BaseNodeVisitor")
+    fn = [st for st in cls.body if isinstance(st, ast.FunctionDef) and st.name == "show_error"][0]
+    for n in ast.walk(fn):
+        if isinstance(n, ast.Assign) and len(n.targets) == 1 and isinstance(n.targets[0], ast.Name) and n.targets[0].id == "col_offset":
+            v = n.value
+            if isinstance(v, ast.Call) and _name_of(v.func) == "len" and len(v.args) == 1:
+                inner = v.args[0]
+                if isinstance(inner, ast.Call) and isinstance(inner.func, ast.Attribute) and inner.func.attr == "decode":
+                    sub = inner.func.value
+                    if isinstance(sub, ast.Subscript) and isinstance(sub.slice, ast.Slice) and sub.slice.lower is None \
+                            and isinstance(sub.slice.upper, ast.Name) and sub.slice.upper.id == "col_offset":
+                        return True
+                raise TranslateError(f"node_visitor.py:{n.lineno}: col_offset is reassigned in an unsupported way")
+    return False
+
+
 def _name_of(e):
     return e.id if isinstance(e, ast.Name) else e.attr if isinstance(e, ast.Attribute) else None
 
@@ -538,7 +558,8 @@ def translate(repo: str) -> str:
         f"Definition expr_kinds : list string := {_sl(expr_kinds())}%list.\n\n"
         f"Definition show_error_params : emit_params :=\n"
         f"  {{| ep_context := {se_c}%Z; ep_after_extra := {se_e}%Z; ep_prev_off := {se_b}%Z; ep_prev_min := {se_m}%Z;\n"
-        f"     ep_more_prev := {se_more_txt}%list |}}.\n\n"
+        f"     ep_more_prev := {se_more_txt}%list |}}.\n"
+        f"Definition column_converted : bool := {'true' if column_converted(repo) else 'false'}.\n\n"
         f"Definition enum_members : list (string * list string) := [{enum_rows}]%list.\n"
         f"Definition enum_chains : list (string * string * string * string * list string) := [\n{chain_rows}\n]%list.\n"
         f"Definition bound_chain_handled : list string := {_sl(bhandled)}%list.\n"
